@@ -319,10 +319,10 @@ func sites() []site {
 	return out
 }
 
-type fixedRevisioner struct{}
+type fixedRevisioner struct{ suffix string }
 
-func (fixedRevisioner) Revision(_ context.Context, p pkgv1.Package, _ ...string) (string, error) {
-	return p.GetName() + "-0123456789ab", nil
+func (f fixedRevisioner) Revision(_ context.Context, p pkgv1.Package, _ ...string) (string, error) {
+	return p.GetName() + "-0123456789ab" + f.suffix, nil
 }
 
 // gvkKeeping restores the GVK on typed objects after Get, as the controller-runtime cache
@@ -697,13 +697,143 @@ func main() {
 		if err := kit.Try(func() { composedSites(c, r) }); err != nil {
 			c.Violate("panic:composed", "composed", err.Error(), nil)
 		}
-		if r < 3 {
+		if r < 4 {
+			if err := kit.Try(func() { xrSecretHistory(c, r) }); err != nil {
+				c.Violate("panic:xr-secret-history", "xr-secret-history", err.Error(), nil)
+			}
+			if err := kit.Try(func() { predecessorRevision(c, r) }); err != nil {
+				c.Violate("panic:predecessor-revision", "predecessor-revision", err.Error(), nil)
+			}
 			if err := kit.Try(func() { claimSecretRace(c, r) }); err != nil {
 				c.Violate("panic:claim-secret-race", "claim-secret-race", err.Error(), nil)
 			}
 		}
 	}
 	c.Finish()
+}
+
+// xrSecretHistory: the XR has published its connection secret; the secret is then deleted and
+// re-created under the same name by another owner, and the XR's connection details change. The
+// next publishes (same long-lived controller) must leave the other owner's secret alone.
+func xrSecretHistory(c *kit.Ctx, round int) {
+	for _, mode := range []string{"pipeline", "pt"} {
+		caseName := fmt.Sprintf("xr-secret-recreated-by-foreign/%s/r%d", mode, round)
+		if !c.Want(caseName) {
+			continue
+		}
+		s := site{name: "xr-" + mode + "-connection-secret-recreated-by-foreign", actors: map[string]bool{"xr": true}}
+		w := sim.NewWorld(xrk.Scheme(), uint64(c.Seed)*193+uint64(round))
+		d := xrd("", false)
+		w.MustSeed("user", d)
+		val := "v1"
+		fnMu.Lock()
+		if mode == "pipeline" {
+			fnServer.Set(func(req *fnv1.RunFunctionRequest) (*fnv1.RunFunctionResponse, error) {
+				ds := &fnv1.State{Resources: map[string]*fnv1.Resource{}, Composite: &fnv1.Resource{ConnectionDetails: map[string][]byte{"k": []byte(val)}, Ready: fnv1.Ready_READY_TRUE}}
+				st, _ := structpb.NewStruct(nopObj("NopA", "1"))
+				ds.Resources["a"] = &fnv1.Resource{Resource: st, Ready: fnv1.Ready_READY_TRUE}
+				return &fnv1.RunFunctionResponse{Desired: ds}, nil
+			})
+			for _, o := range xrk.FunctionObjects("fn-0", fnServer.Addr) {
+				w.MustSeedFull("pkg", o)
+			}
+			w.MustSeed("user", xrk.PipelineComposition("comp", "ex.org/v1", "XThing", []string{"fn-0"}, nil))
+		} else {
+			w.MustSeed("user", xrk.ResourcesComposition("comp", "ex.org/v1", "XThing", []map[string]any{
+				{"name": "a", "base": nopObj("NopA", "1"), "readinessChecks": []any{map[string]any{"type": "None"}},
+					"patches":           []any{map[string]any{"type": "FromCompositeFieldPath", "fromFieldPath": "spec.secretValue", "toFieldPath": "spec.forProvider.v"}},
+					"connectionDetails": []any{map[string]any{"name": "k", "type": "FromFieldPath", "fromFieldPath": "spec.forProvider.v"}}}}))
+		}
+		_ = xrk.ReconcileComposition(w, "comp")
+		w.MustSeed("user", xrk.XRObject("ex.org/v1", "XThing", "xr1", "comp", map[string]any{"secretValue": "v1", "writeConnectionSecretToRef": map[string]any{"name": "xr-conn", "namespace": "crossplane-system"}}))
+		env := xrk.NewXREnv(w, xrk.XRDTyped(d))
+		for i := 0; i < 3; i++ {
+			_, _, _ = env.Reconcile("xr1")
+		}
+		sk := sim.Key{Kind: "Secret", Namespace: "crossplane-system", Name: "xr-conn"}
+		published := w.GetObj(sk) != nil
+		// somebody deletes the secret and another owner creates one under the same name
+		if o := w.GetObj(sk); o != nil {
+			_ = w.Client("user").Delete(ctx, &unstructured.Unstructured{Object: o})
+		}
+		w.MustSeed("someone-else", map[string]any{"apiVersion": "v1", "kind": "Secret", "type": "connection.crossplane.io/v1alpha1",
+			"metadata": map[string]any{"namespace": "crossplane-system", "name": "xr-conn", "ownerReferences": []any{foreignRef()}, "labels": map[string]any{"planted-by": "someone-else"}},
+			"data":     map[string]any{"k": "dGhlaXJz", "theirs": "a2VlcA=="}})
+		// ... and the XR's connection details change
+		val = "v2"
+		xr := &unstructured.Unstructured{Object: w.GetObj(sim.Key{Group: "ex.org", Kind: "XThing", Name: "xr1"})}
+		_ = unstructured.SetNestedField(xr.Object, "v2", "spec", "secretValue")
+		_ = w.Client("user").Update(ctx, xr)
+		before := w.GetObj(sk)
+		from := w.LogLen()
+		evFrom := env.Rec.Len()
+		var o outcome
+		for i := 0; i < 3; i++ {
+			_, err, _ := env.Reconcile("xr1")
+			o.errs = append(o.errs, err)
+		}
+		o.warnings = countWarnings(env.Rec, evFrom)
+		o.unsynced = xrSynced(w, "ex.org")
+		env.CloseConns()
+		fnMu.Unlock()
+		judge(c, s, caseName, "foreign", w, sk, before, from, o, map[string]any{"published_before_takeover": published})
+	}
+}
+
+// predecessorRevision: a package was deleted and created again under the same name (new uid)
+// before its old revision was collected. The old revision still carries the package label but is
+// controlled by the predecessor's uid: the new package's manager must not touch it.
+func predecessorRevision(c *kit.Ctx, round int) {
+	caseName := fmt.Sprintf("pkg-manager-predecessor-revision/r%d", round)
+	if !c.Want(caseName) {
+		return
+	}
+	s := site{name: "pkg-manager-predecessor-revision", actors: map[string]bool{"pkgmgr": true}}
+	w := sim.NewWorld(xrk.Scheme(), uint64(c.Seed)*197+uint64(round))
+	name := fmt.Sprintf("prov-r%d", round)
+	w.MustSeed("user", map[string]any{"apiVersion": "pkg.crossplane.io/v1", "kind": "Provider", "metadata": map[string]any{"name": name},
+		"spec": map[string]any{"package": "xpkg.example.org/acme/" + name + ":v2.0.0", "revisionActivationPolicy": "Automatic", "revisionHistoryLimit": int64(int(round) % 2), "packagePullPolicy": "IfNotPresent"}})
+	w.MustSeed("old-pkgmgr", map[string]any{"apiVersion": "pkg.crossplane.io/v1", "kind": "ProviderRevision",
+		"metadata": map[string]any{"name": name + "-aaaaaaaaaaaa", "labels": map[string]any{"pkg.crossplane.io/package": name},
+			"ownerReferences": []any{map[string]any{"apiVersion": "pkg.crossplane.io/v1", "kind": "Provider", "name": name, "uid": "uid-of-the-deleted-predecessor", "controller": true, "blockOwnerDeletion": true}}},
+		"spec": map[string]any{"image": "xpkg.example.org/acme/" + name + ":v1.0.0", "desiredState": []string{"Active", "Inactive"}[(round/2)%2], "revision": int64(1)}})
+	pk := sim.Key{Group: "pkg.crossplane.io", Kind: "ProviderRevision", Name: name + "-aaaaaaaaaaaa"}
+	before := w.GetObj(pk)
+	from := w.LogLen()
+	rec := xrk.NewRecorder()
+	cl := w.Client("pkgmgr")
+	rc := pkgmanager.NewReconciler(xrk.NewManager(w, gvkKeeping{cl}),
+		pkgmanager.WithNewPackageFn(func() pkgv1.Package { return &pkgv1.Provider{} }),
+		pkgmanager.WithNewPackageRevisionFn(func() pkgv1.PackageRevision { return &pkgv1.ProviderRevision{} }),
+		pkgmanager.WithNewPackageRevisionListFn(func() pkgv1.PackageRevisionList { return &pkgv1.ProviderRevisionList{} }),
+		pkgmanager.WithRevisioner(fixedRevisioner{}),
+		pkgmanager.WithConfigStore(xpkg.NewImageConfigStore(cl, "crossplane-system")),
+		pkgmanager.WithRecorder(rec))
+	var o outcome
+	for i := 0; i < 3; i++ {
+		_, err := rc.Reconcile(ctx, reconcile.Request{NamespacedName: types.NamespacedName{Name: name}})
+		o.errs = append(o.errs, err)
+	}
+	// the package is upgraded: with a history limit of 1 there are now more revisions than the
+	// limit allows - the collector may only ever remove revisions of THIS package
+	pu := &unstructured.Unstructured{Object: w.GetObj(sim.Key{Group: "pkg.crossplane.io", Kind: "Provider", Name: name})}
+	_ = unstructured.SetNestedField(pu.Object, "xpkg.example.org/acme/"+name+":v3.0.0", "spec", "package")
+	_ = w.Client("user").Update(ctx, pu)
+	rc2 := pkgmanager.NewReconciler(xrk.NewManager(w, gvkKeeping{cl}),
+		pkgmanager.WithNewPackageFn(func() pkgv1.Package { return &pkgv1.Provider{} }),
+		pkgmanager.WithNewPackageRevisionFn(func() pkgv1.PackageRevision { return &pkgv1.ProviderRevision{} }),
+		pkgmanager.WithNewPackageRevisionListFn(func() pkgv1.PackageRevisionList { return &pkgv1.ProviderRevisionList{} }),
+		pkgmanager.WithRevisioner(fixedRevisioner{suffix: "-v3"}),
+		pkgmanager.WithConfigStore(xpkg.NewImageConfigStore(cl, "crossplane-system")),
+		pkgmanager.WithRecorder(rec))
+	for i := 0; i < 3; i++ {
+		_, err := rc2.Reconcile(ctx, reconcile.Request{NamespacedName: types.NamespacedName{Name: name}})
+		o.errs = append(o.errs, err)
+	}
+	o.warnings = countWarnings(rec, 0)
+	// the manager need not report anything about a revision that is not its own
+	o.errs = append(o.errs, fmt.Errorf("not-required"))
+	judge(c, s, caseName, "foreign", w, pk, before, from, o, map[string]any{"revisions": len(w.ListObjs(sim.Key{Group: "pkg.crossplane.io", Kind: "ProviderRevision"}.GK()))})
 }
 
 // claimSecretRace: two claims in one namespace name the SAME connection secret. Claim B owns it.
